@@ -207,7 +207,7 @@ theorem applyBvm_steps {env : Env} {l : Led} {c m : String} {args : List Arg} {r
           · cases e
         · cases e
       · split at e
-        · cases e
+        · split at e <;> cases e
         · cases e
 
 end Bxh.Exec
